@@ -271,6 +271,10 @@ class PureInterp:
                 if isinstance(t, ast.Subscript):
                     c = self.eval(t.value, env, module, depth)
                     k = self.eval(t.slice, env, module, depth)
+                    dm = self._dunder(c, "__delitem__")
+                    if dm is not None:
+                        self.call(dm, (k,), {}, self_obj=c, depth=depth + 1)
+                        continue
                     try:
                         del c[k]
                     except KeyError:
@@ -361,6 +365,10 @@ class PureInterp:
         elif isinstance(t, ast.Subscript):
             c = self.eval(t.value, env, module, depth)
             k = self.eval(t.slice, env, module, depth)
+            dm = self._dunder(c, "__setitem__")
+            if dm is not None:
+                self.call(dm, (k, v), {}, self_obj=c, depth=depth + 1)
+                return
             c[k] = v
         elif isinstance(t, ast.Attribute):
             o = self.eval(t.value, env, module, depth)
@@ -372,6 +380,14 @@ class PureInterp:
                 raise Unsupported("attribute store")
         else:
             raise Unsupported("assignment target")
+
+    def _dunder(self, obj, name):
+        """The repo-defined special method of a symbolic object's class, if any."""
+        if isinstance(obj, Obj):
+            cls = obj.__dict__["_attrs"].get("__class__")
+            if isinstance(cls, ClassInfo):
+                return self.index.method(cls, name)
+        return None
 
     def _handler_matches(self, raised, handler, module):
         """Class-hierarchy match of a raised exception kind (short or canonical name) against a handler clause."""
@@ -588,6 +604,9 @@ class PureInterp:
             st = self.eval(n.slice.step, env, module, depth) if n.slice.step else None
             return v[lo:hi:st]
         k = self.eval(n.slice, env, module, depth)
+        dm = self._dunder(v, "__getitem__")
+        if dm is not None:
+            return self.call(dm, (k,), {}, self_obj=v, depth=depth + 1)
         try:
             if isinstance(v, DefaultDict):
                 return v.lookup(k)
